@@ -579,6 +579,11 @@ def _build(spec, variant=None):
         B.constr.append(m.st(z0 <= rhs if sense == 'le' else z0 == rhs))
     for c in spec['cvx']:
         _hook(variant, 'row', B)
+        if variant.get('mult_into_arg') and c['atom'] in ('abs', 'norm1', 'norminf', 'norm2') \
+                and c['mult'] > 0 and not c.get('mult_inside'):
+            # positively homogeneous atoms: k*atom(Mx + v) written as atom(k*Mx + k*v)
+            c = dict(c, M=(c['mult'] * np.array(c['M'], float)).tolist(),
+                     v=(c['mult'] * np.array(c['v'], float)).tolist(), mult=1.0)
         B.constr.append(m.st(cvx_constraint(rso, B, c, rng)))
     for s in spec['special']:
         if s['kind'] == 'rsocone':
